@@ -68,6 +68,11 @@ where
     fn nested_of<ER: ErrK<'s, Self>>(_id: u32) -> BP<'s, Self, ER> {
         panic!("nested_delimiters is not supported on input kind {}", Self::NAME)
     }
+    /// `a.nested_in(b.to_slice())` (kinds whose slices are inputs of the same kind)
+    const NESTED: bool = false;
+    fn nested_in_of<ER: ErrK<'s, Self>>(_a: BP<'s, Self, ER>, _b: BP<'s, Self, ER>) -> BP<'s, Self, ER> {
+        panic!("nested_in is not supported on input kind {}", Self::NAME)
+    }
     /// Wrapper capturing span and slice of a node (C07); kinds without slices capture the span twice.
     fn capture<ER: ErrK<'s, Self>>(id: u32, p: BP<'s, Self, ER>) -> BP<'s, Self, ER> {
         p.map_with(move |v, e| {
@@ -142,6 +147,11 @@ impl<'s> Kind<'s> for &'s str {
     fn base(buf: &Buf) -> usize {
         buf.text.as_ptr() as usize
     }
+    const NESTED: bool = true;
+    fn nested_in_of<ER: ErrK<'s, Self>>(a: BP<'s, Self, ER>, b: BP<'s, Self, ER>) -> BP<'s, Self, ER> {
+        // spans inside are relative to the inner &str: re-base by the start of the region
+        a.nested_in(b.to_slice()).map_with(|v: Val, e| v.shift_spans(Self::sp(&e.span()).0)).boxed()
+    }
     fn capture<ER: ErrK<'s, Self>>(id: u32, p: BP<'s, Self, ER>) -> BP<'s, Self, ER> {
         p.map_with(move |v, e| {
             let s = Self::sp(&e.span());
@@ -173,6 +183,10 @@ impl<'s> Kind<'s> for &'s [char] {
     }
     fn base(buf: &Buf) -> usize {
         buf.chars.as_ptr() as usize / std::mem::size_of::<char>()
+    }
+    const NESTED: bool = true;
+    fn nested_in_of<ER: ErrK<'s, Self>>(a: BP<'s, Self, ER>, b: BP<'s, Self, ER>) -> BP<'s, Self, ER> {
+        a.nested_in(b.to_slice()).map_with(|v: Val, e| v.shift_spans(Self::sp(&e.span()).0)).boxed()
     }
     fn capture<ER: ErrK<'s, Self>>(id: u32, p: BP<'s, Self, ER>) -> BP<'s, Self, ER> {
         p.map_with(move |v, e| {
@@ -215,6 +229,16 @@ impl<'s> Kind<'s> for MappedK<'s> {
     }
     fn sp(s: &SimpleSpan) -> Sp {
         simple(s)
+    }
+    const NESTED: bool = true;
+    fn nested_in_of<ER: ErrK<'s, Self>>(a: BP<'s, Self, ER>, b: BP<'s, Self, ER>) -> BP<'s, Self, ER> {
+        // tokens carry their own (absolute) spans; the inner end-of-input span is the empty span at the region's end
+        let inner = b.to_slice().map_with(|sl: &'s [(char, SimpleSpan)], e| {
+            let sp: SimpleSpan = e.span();
+            let f: MapFn<'s> = split_pair;
+            sl.map(SimpleSpan::from(sp.end..sp.end), f)
+        });
+        a.nested_in(inner).boxed()
     }
     fn off(buf: &Buf, p: usize, q: usize) -> Sp {
         if p == q {
@@ -879,6 +903,11 @@ where
             }
         }
         ExtWrap => chumsky::extension::v1::Ext(WrapExt(kid!(0))).boxed(),
+        NestedIn => {
+            let a = kid!(0);
+            let b = kid!(1);
+            I::nested_in_of::<ER>(a, b)
+        }
         Ref => {
             let n = g.p.n;
             env.recs.iter().rev().find(|(m, _)| *m == n).map(|(_, p)| p.clone()).expect("unbound Ref")
